@@ -361,7 +361,19 @@ pub fn make_case(seed: u64, run: u64, thorough: bool, _stats: &mut Stats) -> Opt
     let nf = if r.chance(10) { 0 } else if r.chance(60) { 1 } else { r.urange(2, 3) };
     for _ in 0..nf {
         let len = src.len();
-        match r.below(18) {
+        match r.below(20) {
+            18 | 19 => {
+                // one very long line: a statement (sound or not), then blanks up to a round byte
+                // offset where a multi-byte blank sits, then more
+                let target = *r.pick(&[64usize, 128, 255, 256, 257, 512, 1024, 4096, 65536]);
+                let stmt = *r.pick(&["mov ax,, 1", "print reg", "mov bl, 300", "jmp nowhere_far", "mov ax, 1", "int 3", "mov bx, @"]);
+                let k = target.saturating_sub(1 + stmt.len()).max(1);
+                let wide = *r.pick(&["\u{a0}", "\u{2003}", "\u{a0}\u{a0}\u{2003}"]);
+                let tail = if r.chance(50) { " mov cx, 2" } else { "" };
+                let nl = if r.chance(50) { "\n" } else { "" };
+                src = format!("start:\n{}{}{}{}{}", stmt, " ".repeat(k), wide, tail, nl).into_bytes();
+                faults.push(format!("long_line_multibyte_at({})", target));
+            }
             16 | 17 => {
                 // a random call graph of macros: any macro may use any other (or itself), earlier or
                 // later in its body, so cycles of every shape occur - direct, through several
